@@ -75,7 +75,7 @@ func (m *managedRT) Fail(sig, format string, a ...any) {
 	}
 }
 func (m *managedRT) Logf(format string, a ...any)              { sched.Logf(format, a...) }
-func (m *managedRT) Quiesce()                                     { sched.Quiesce() }
+func (m *managedRT) Quiesce()                                  { sched.Quiesce() }
 func (m *managedRT) Outcome(s string)                          { m.outcome = s }
 func (m *managedRT) OnDeadlock(f func([]e3scn.Blocked) string) { m.classify = f }
 
@@ -101,7 +101,8 @@ func RunOnce(sc *Scenario, x *explore.Exec, prefixLen int) (*explore.Violation, 
 		}
 		var bl []e3scn.Blocked
 		for _, t := range r.Threads {
-			bl = append(bl, e3scn.Blocked{ID: t.ID, Name: t.Name, Daemon: t.Daemon, What: t.What, Stack: t.Stack, Finished: t.Finished, LastPreempt: t.LastPreempt})
+			bl = append(bl, e3scn.Blocked{ID: t.ID, Name: t.Name, Daemon: t.Daemon, What: t.What, Stack: t.Stack, Finished: t.Finished,
+				LastPreempt: t.LastPreempt, LastPreemptStack: t.LastPreemptStack})
 		}
 		return rt.classify(bl)
 	}
@@ -169,6 +170,12 @@ func abortSig(msg string) string {
 		text = text[:60]
 	}
 	return kind + "/" + name + "/" + strings.TrimSpace(text)
+}
+
+// Sampling reports whether a signature is the result of the twice-run sampling
+// (same schedule, different outcome): by nature not reproducible on demand.
+func Sampling(sig string) bool {
+	return strings.HasPrefix(sig, "same-schedule-different-outcome") || strings.HasPrefix(sig, "nondeterministic/")
 }
 
 // LastKind is how the first run of the last Execute ended ("ok", "deadlock", ...).
@@ -303,7 +310,12 @@ func serveWorker(scs []Scenario) {
 			if v != nil {
 				rp.Sig, rp.Msg = v.Sig, v.Msg
 			}
-			if j.Confirm && v != nil {
+			if j.Confirm && v != nil && Sampling(v.Sig) {
+				// a verdict about nondeterminism itself cannot be confirmed by re-running
+				for _, p := range x.Points {
+					rp.Tags = append(rp.Tags, p.Tag)
+				}
+			} else if j.Confirm && v != nil {
 				for i := 0; i < 5; i++ {
 					_, v2, infra2, _ := Execute(sc, j.Bound, x.Choices, false, nil)
 					if infra2 != "" || v2 == nil || v2.Sig != v.Sig {
@@ -533,7 +545,7 @@ func (e *exploration) loop() {
 					e.mu.Unlock()
 					e.fail(fmt.Sprintf("%s: %v while confirming %v", e.sc.Sc.Name, err, rp.Choices))
 					return
-				case cr.Unstable != "" || cr.Sig != rp.Sig:
+				case cr.Unstable != "" || (cr.Sig != rp.Sig && !Sampling(rp.Sig)):
 					e.fail(fmt.Sprintf("%s: %s (confirmation gave %q)", e.sc.Sc.Name, cr.Unstable, cr.Sig))
 				default:
 					e.mu.Lock()
@@ -632,6 +644,15 @@ func Main(r *harness.Run, scs []Scenario, rule string) *Summary {
 	}
 	if r.Replay != "" {
 		replay(r, scs)
+	}
+	if only := os.Getenv("E3_ONLY"); only != "" { // development aid: restrict the scenarios
+		var keep []Scenario
+		for _, sc := range scs {
+			if strings.Contains(sc.Sc.Name, only) {
+				keep = append(keep, sc)
+			}
+		}
+		scs = keep
 	}
 	nw := *workersFlag
 	if nw <= 0 {
